@@ -89,6 +89,18 @@ class IrGenerator:
             concurrent.visit_referenced_objects(replace_temporaries)
             converter.code().visit_referenced_objects(replace_temporaries)
 
+            def check_replaced(obj, access: AccessFlags):
+                # The always block is emitted outside of the process.
+                # A temporary that is still referenced there (objects of
+                # inline code are not replaced) would be declared as a
+                # variable of the process.
+                assert not isinstance(
+                    obj, Temporary
+                ), "temporaries cannot be used in inline code of an always block"
+                return obj
+
+            concurrent.visit_referenced_objects(check_replaced)
+
             always_expr = concurrent
 
         return ir.Sequential(
@@ -1220,8 +1232,11 @@ class ConvertInstance:
             if pretty_traceback_active():
                 src = err.src_statement
 
-                if src._frame is not None:
-                    src._frame.apply_to_exception(err.original)
+                # not every statement records a frame (e.g. inline code)
+                frame = getattr(src, "_frame", None)
+
+                if frame is not None:
+                    frame.apply_to_exception(err.original)
 
                 raise err.original
             raise
